@@ -2,6 +2,7 @@
 package c11
 
 import (
+	"bufio"
 	"bytes"
 	"context"
 	"crypto/ecdsa"
@@ -189,6 +190,29 @@ func shapes() []shape {
 			return err
 		}
 		m.AttachReadSeeker("positioned.bin", pos)
+		// plain readers the caller has already read from (AttachReader / EmbedReader take what is left, once):
+		// a *bytes.Reader, a *strings.Reader and a *bufio.Reader at a non-zero position
+		br := bytes.NewReader([]byte("CONSUMED-PREFIX:" + bin))
+		if _, err := br.Seek(int64(len("CONSUMED-PREFIX:")), io.SeekStart); err != nil {
+			return err
+		}
+		if err := m.AttachReader("consumed-bytes-reader.bin", br); err != nil {
+			return err
+		}
+		sr := strings.NewReader("CONSUMED-PREFIX:" + bin)
+		if _, err := io.CopyN(io.Discard, sr, int64(len("CONSUMED-PREFIX:"))); err != nil {
+			return err
+		}
+		if err := m.EmbedReader("consumed-strings-reader.bin", sr); err != nil {
+			return err
+		}
+		bu := bufio.NewReader(strings.NewReader("CONSUMED-PREFIX:" + bin))
+		if _, err := bu.Discard(len("CONSUMED-PREFIX:")); err != nil {
+			return err
+		}
+		if err := m.AttachReader("consumed-bufio-reader.bin", bu); err != nil {
+			return err
+		}
 		// sources large enough that a failing destination stops the copy in the middle of the source
 		big := bytes.Repeat([]byte("0123456789abcdef"), 300)
 		m.AttachReadSeeker("big-seeker.bin", bytes.NewReader(big))
